@@ -312,7 +312,7 @@ def main(tier, seed, replay=None):
         if k not in seen:
             seen.add(k)
             cases.append(c)
-    cases = par.sample(cases, 4 if q else max(1, len(cases) // 8000), seed)
+    cases = par.sample(cases, 6 if q else max(1, len(cases) // 8000), seed)
     # all mapping arrays of length 1..4 (explicitly mapped basin)
     res2 = tlc.run("MC_Basin", CFG.format(m=2 if q else 3).replace(
         "NEXT Next", "NEXT MapNext"), workers=8, timeout=3000)
